@@ -37,6 +37,9 @@ var isumLemmas = []string{
 	// one more element of the same array (triggered only by two existing sums of
 	// the same array and offset: creates no new sum terms, so no matching loop)
 	`(assert (forall ((V (Array Int Int)) (o Int) (n Int) (m Int)) (! (=> (and (>= n 0) (= m (+ n 1))) (= (isum V o m) (+ (isum V o n) (select V (+ o n))))) :pattern ((isum V o n) (isum V o m)))))`,
+	// one more element, between two arrays that agree on the range (the state may
+	// have changed in between: a store to another object of the same heap)
+	`(assert (forall ((V1 (Array Int Int)) (V2 (Array Int Int)) (o1 Int) (o2 Int) (n Int) (m Int)) (! (=> (and (>= n 0) (= m (+ n 1)) (forall ((a Int)) (! (=> (and (<= o1 a) (< a (+ o1 n))) (= (select V1 a) (select V2 (+ o2 (- a o1))))) :pattern ((select V1 a))))) (= (isum V2 o2 m) (+ (isum V1 o1 n) (select V2 (+ o2 n))))) :pattern ((isum V1 o1 n) (isum V2 o2 m)))))`,
 	// extensionality (the lengths are separate variables so that matching does
 	// not depend on the two length terms being syntactically equal; hypotheses
 	// range over absolute indices so that they have a plain select as trigger)
@@ -280,6 +283,8 @@ func lemmaResults() []*FuncResult {
 		mk("isum-nonneg-step", "sum of non-negative summands is non-negative, induction step",
 			[]string{"(> n 0)", "(=> " + nnHyp("(- n 1)") + " (>= (isum V1 o1 (- n 1)) 0))", nnHyp("n")},
 			"(>= (isum V1 o1 n) 0)"),
+		mk("isum-snoc", "a range extending another (possibly of another array that agrees with it) by one element", []string{extAx, "(>= n 0)", extHyp("n")},
+			"(= (isum V2 o2 (+ n 1)) (+ (isum V1 o1 n) (select V2 (+ o2 n))))"),
 		mk("isum-concat-base", "sum over a concatenation, base case (nothing appended)",
 			[]string{extAx, "(>= n 0)", "(= m 0)", extHyp("n")},
 			"(= (isum V2 o2 (+ n m)) (+ (isum V1 o1 n) (isum V3 o3 m)))"),
